@@ -55,6 +55,9 @@ type Program struct {
 
 	tables       map[*ssa.Global]map[string]constant.Value
 	tablesOK     map[*ssa.Global]bool
+	arrays       map[*ssa.Global]map[int64]constant.Value
+	arraysLen    map[*ssa.Global]int64
+	arraysOK     map[*ssa.Global]bool
 	presenceOnly map[*ssa.Global]map[string]bool
 	funcTables   map[*ssa.Global]map[string]*ssa.Function
 }
@@ -422,6 +425,115 @@ func (p *Program) funcOfInit(g *ssa.Global, key constant.Value) *ssa.Function {
 		}
 	})
 	return out
+}
+
+// constArray returns the elements of a package-level array or slice variable that is initialised
+// by a composite literal of constants (keyed or positional) and never written outside the package
+// initialiser: index -> value; indexes that are not listed hold the zero value (ok reports that the
+// variable is such a table, n is its length when it is an array, -1 otherwise).
+func (p *Program) constArray(g *ssa.Global) (vals map[int64]constant.Value, n int64, ok bool) {
+	if p.arrays == nil {
+		p.arrays = map[*ssa.Global]map[int64]constant.Value{}
+		p.arraysLen = map[*ssa.Global]int64{}
+		p.arraysOK = map[*ssa.Global]bool{}
+	}
+	if okk, done := p.arraysOK[g]; done {
+		return p.arrays[g], p.arraysLen[g], okk
+	}
+	p.arraysOK[g] = false
+	if g.Pkg == nil || !isFirstParty(g.Pkg.Pkg.Path()) {
+		return nil, 0, false
+	}
+	pt, _ := g.Type().Underlying().(*types.Pointer)
+	if pt == nil {
+		return nil, 0, false
+	}
+	length := int64(-1)
+	switch t := pt.Elem().Underlying().(type) {
+	case *types.Array:
+		length = t.Len()
+	case *types.Slice:
+	default:
+		return nil, 0, false
+	}
+	// never written outside init (element stores or whole-variable stores)
+	for _, fn := range p.SrcFuncs() {
+		if fn.Name() == "init" {
+			continue
+		}
+		written := false
+		allInstrs(fn, func(in ssa.Instruction) {
+			st, isSt := in.(*ssa.Store)
+			if !isSt {
+				return
+			}
+			if st.Addr == ssa.Value(g) {
+				written = true
+			}
+			if ia, isIA := st.Addr.(*ssa.IndexAddr); isIA {
+				if ia.X == ssa.Value(g) {
+					written = true
+				}
+				if u, isU := ia.X.(*ssa.UnOp); isU && u.X == ssa.Value(g) {
+					written = true
+				}
+			}
+		})
+		if written {
+			return nil, 0, false
+		}
+	}
+	rel := strings.TrimPrefix(g.Pkg.Pkg.Path(), modPath+"/")
+	pkg := p.Pkg(rel)
+	if pkg == nil {
+		return nil, 0, false
+	}
+	for _, f := range pkg.Syntax {
+		for _, d := range f.Decls {
+			gd, isGD := d.(*ast.GenDecl)
+			if !isGD || gd.Tok != token.VAR {
+				continue
+			}
+			for _, sp := range gd.Specs {
+				vs := sp.(*ast.ValueSpec)
+				for i, id := range vs.Names {
+					if pkg.TypesInfo.Defs[id] != g.Object() || i >= len(vs.Values) {
+						continue
+					}
+					cl, isCL := vs.Values[i].(*ast.CompositeLit)
+					if !isCL {
+						return nil, 0, false
+					}
+					out := map[int64]constant.Value{}
+					next := int64(0)
+					for _, el := range cl.Elts {
+						val := el
+						if kv, isKV := el.(*ast.KeyValueExpr); isKV {
+							ktv := pkg.TypesInfo.Types[kv.Key]
+							if ktv.Value == nil {
+								return nil, 0, false
+							}
+							k, exact := constant.Int64Val(constant.ToInt(ktv.Value))
+							if !exact {
+								return nil, 0, false
+							}
+							next = k
+							val = kv.Value
+						}
+						vtv := pkg.TypesInfo.Types[val]
+						if vtv.Value == nil {
+							return nil, 0, false
+						}
+						out[next] = vtv.Value
+						next++
+					}
+					p.arrays[g], p.arraysLen[g], p.arraysOK[g] = out, length, true
+					return out, length, true
+				}
+			}
+		}
+	}
+	return nil, 0, false
 }
 
 // funcTable: for a constant table (see constTable) whose values are functions, key -> function.
